@@ -111,6 +111,32 @@ def gen_cases(rng, tier):
                'kwargs': {k: gen_arg(rng, k, 8, 'a') for k in rng.sample(['length', 'offset', 'pos', 'uint', 'int', 'hex', 'bin', 'bytes', 'float', 'ue', 'bool', 'bits', 'filename', 'bitarray', 'auto'], rng.randrange(0, 3))}}
     for _ in range(N // 4):
         yield {'op': 'packcall', 'fmt': gen_arg(rng, 'fmt', 8, 'a'), 'vals': [gen_arg(rng, 'value', 8, 'a') for _ in range(rng.randrange(0, 4))]}
+    # pack with bitstring / string operands in every position: the operands (and the string-parse cache) must be unchanged, also after the result is mutated
+    for _ in range(N // 8):
+        k = rng.randrange(1, 4)
+        toks = [rng.choice(['bits', 'bits', 'bits:%d', 'uint:4', 'hex:8', 'bool']) for _ in range(k)]
+        vals, fm = [], []
+        for t in toks:
+            if t.startswith('bits'):
+                b = rand_bits(rng, rng.choice([1, 4, 8, 12]))
+                vals.append(rng.choice([{'bits': b}, {'str': '0b' + b}, {'cbs': b}])); fm.append(t % len(b) if '%d' in t else t)
+            else:
+                vals.append({'uint:4': 5, 'hex:8': {'str': 'a7'}, 'bool': True}[t]); fm.append(t)
+        yield {'op': 'packcall', 'fmt': {'str': ', '.join(fm)}, 'vals': vals, 'lsb0': rng.random() < 0.3, 'mutate_result': True}
+    # exp-Golomb codes cut short by one to three bits, read through every reading method: the position must stay valid
+    from props.c10 import ref_enc
+    for _ in range(N // 8):
+        code = rng.choice(['ue', 'se', 'uie', 'sie'])
+        n = rng.randrange(3, 200) * (rng.choice([1, -1]) if code in ('se', 'sie') else 1)
+        w = ref_enc(code, n)
+        cut = rng.choice([1, 1, 1, 2, 3])
+        pre = rand_bits(rng, rng.choice([0, 0, 2, 3]))
+        bits = pre + w[:len(w) - cut]
+        fmt = (f'uint:{len(pre)}, ' if pre else '') + code
+        meth = rng.choice(['readlist', 'readlist', 'read', 'peek', 'peeklist', 'unpack'])
+        st = {'k': 'call', 'name': meth, 'args': [{'str': fmt if meth in ('readlist', 'peeklist', 'unpack') or not pre else code}], 'kwargs': {}}
+        yield {'op': 'program', 'cls': rng.choice(['ConstBitStream', 'BitStream']), 'bits': bits, 'lsb0': False, 'pos': 0 if meth in ('readlist', 'peeklist', 'unpack') or not pre else len(pre),
+               'adtype': 'uint8', 'steps': [st, {'k': 'getprop', 'name': 'pos'}]}
     for _ in range(N // 4):
         yield {'op': 'dtypecall', 'token': gen_arg(rng, 'fmt', 8, 'a'), 'length': rng.choice([None, None, 0, 8, -1, 17, 4096]), 'scale': gen_arg(rng, 'scale', 8, 'a'), 'v': gen_arg(rng, 'value', 8, 'a')}
 
@@ -121,6 +147,7 @@ def mat(a, self_obj):
     import bitstring
     if isinstance(a, dict):
         if 'bits' in a: return bitstring.Bits(bin=a['bits'])
+        if 'cbs' in a: return bitstring.ConstBitStream(bin=a['cbs'])
         if 'self' in a: return self_obj
         if 'str' in a: return a['str']
         if 'rawstr' in a: return a['rawstr']
@@ -156,7 +183,18 @@ def run_impl(c):
     if op == 'packcall':
         fmt = mat(c['fmt'], None)
         if not isinstance(fmt, str): fmt = 'uint:8'      # pack documents str or list of str only
-        return attempt(lambda: snapshot(pack(fmt, *[mat(v, None) for v in c['vals']])))
+        def f():
+            bitstring.options.lsb0 = c.get('lsb0', False)
+            vals = [mat(v, None) for v in c['vals']]
+            before = [v.bin if isinstance(v, Bits) else None for v in vals]
+            r = pack(fmt, *vals)
+            snap = snapshot(r)
+            if c.get('mutate_result'):
+                r.append('0b1'); r.invert(); r.prepend('0x0')
+            after = [v.bin if isinstance(v, Bits) else None for v in vals]
+            cache_ok = all(Bits(v['str']).bin == v['str'][2:] for v in c['vals'] if isinstance(v, dict) and 'str' in v and v['str'].startswith('0b'))
+            return snap + [before == after and cache_ok]
+        return attempt(f)
     if op == 'dtypecall':
         def f():
             kw = {} if c['scale'] is None else {'scale': c['scale']}
@@ -209,6 +247,8 @@ def oracle(c, obs):
     if op in ('constructor', 'packcall', 'dtypecall'):
         if bad_exc(obs, c): return f"{op} {dict((k, v) for k, v in c.items() if k != 'op')} raised {obs[1]}"
         if obs[0] == 'ok' and op != 'dtypecall' and obs[1][2] != len(obs[1][1]): return f"{op}: len != len(bin)"
+        if obs[0] == 'ok' and op == 'packcall' and len(obs[1]) > 4 and not obs[1][4]:
+            return f"pack({c['fmt']}, {c['vals']}) (lsb0={c.get('lsb0')}) changed an immutable operand or the cached parse of a string operand (possibly once its result was mutated)"
         return None
     for st, (before, r, after, opts, frozen_ok) in zip(c['steps'], obs[1]):
         where = f"{c['cls']}({before[1][:40]!r}, pos={before[3]}, lsb0={c['lsb0']}).{st['name']}" + (f"({st.get('args')}, {st.get('kwargs')})" if st['k'] == 'call' else f" {st['k']} {st.get('v')}")
